@@ -1,0 +1,30 @@
+//go:build verif
+
+package cluster
+
+// Read-only accessors and constructors for the verification harness.
+
+// VerifVVFromMap builds a VersionVector holding exactly the given entries (explicit zeros kept).
+func VerifVVFromMap(m map[string]uint64) VersionVector {
+	out := NewVersionVector()
+	for k, c := range m {
+		out.m[k] = c
+	}
+	out.dirty = true
+	return out
+}
+
+// VerifVVMap returns a copy of the vector's entries (nil map gives an empty result).
+func VerifVVMap(v VersionVector) map[string]uint64 {
+	out := make(map[string]uint64, len(v.m))
+	for k, c := range v.m {
+		out[k] = c
+	}
+	return out
+}
+
+const (
+	VerifMaxVersionVectorEntries = maxVersionVectorEntries
+	VerifMaxNodeAddressLength    = maxNodeAddressLength
+	VerifMaxCounterValue         = maxCounterValue
+)
